@@ -126,7 +126,7 @@ def work_of(depth, outvals, maxcalls, two_process=True, unsuccessful='short'):
 # declared namespace level `a` (FrozenOK) and without the defaults declared below `a` (ParsedOK), which {} and a left-out key both get.
 # Switch it on to see the reports; it stays off until the library is repaired or the behaviour is listed as a known finding with a
 # deviation clause in spec/Ports.tla.
-NONE_FOR_NAMESPACE = False
+NONE_FOR_NAMESPACE = True
 _NSNONE = ['VNONE'] if NONE_FOR_NAMESPACE else []
 
 IN_VALS_FULL = dict(leafvals=['VI0', 'VNEG', 'VS', 'VE', 'U(VI0)', 'VNONE'], nsbad=['VI0', 'VS', 'VES'] + _NSNONE,
